@@ -61,6 +61,11 @@ def scenarios():
     s.append(scn("checkstate-success", pend, {"op": "checkstate", "ys": ["b1"], "status": ["succeeded"]}, [pm("lq1"), sw("b1", [8])]))
     # keyset rotation at run time and at start-up
     s.append(scn("rotate", FUND, {"op": "rotate", "fee": 100}, [sw("b1", [8]), {"op": "restart"}, sw("b2", [4])]))
+    # a rotation of a mint that has rotated before (two, then three keysets stored): the recovery has to pick the right one
+    s.append(scn("rotate-again", FUND + [{"op": "rotate", "fee": 100}, {"op": "mintquote", "amt": 4}, {"op": "settle", "q": "mq2"},
+                                          {"op": "mint", "q": "mq2", "outs": [{"amt": 4}]}],
+                 {"op": "rotate", "fee": 0},
+                 [sw("b1", [8]), sw("b4", [2, 1]), {"op": "restart"}, sw("b2", [4]), {"op": "rotate", "fee": 100}, {"op": "keysets"}]))
     s.append(scn("restart-rotate", FUND, {"op": "restart", "rotate": True, "fee": 100}, [sw("b1", [8]), {"op": "restart"}, sw("b2", [4])]))
     return s
 
@@ -70,7 +75,7 @@ def finding_key(runinfo, ev, reason):
     return "%s|%s|%s:%s" % (runinfo["scenario"], how, ev, reason)
 
 
-def fault_http(prop="C20"):
+def fault_http(prop="C20", only=None):
     """C20, fault clause: every victim operation driven through the HTTP handler while its k-th storage / Lightning call fails
     (every k); TLC judges how the failure is reported (Http!FaultHttpTags): {detail, code} body, no text of the failing
     call's error.  Returns (coverage, violations)."""
@@ -78,7 +83,9 @@ def fault_http(prop="C20"):
     d = rundir("%s_faulthttp_%s" % (prop, tier()))
     sd = spec_copy(d)
     scns = [dict(s, http=True, nocrash=True) for s in scenarios()]
-    if tier() == "quick":
+    if only:
+        scns = [s for s in scns if s["name"] in only]
+    elif tier() == "quick":
         scns = [s for s in scns if s["name"] in ("swap", "mint", "melt-success", "melt-pending", "melt-internal", "pollmelt-failed", "melt-error-succeeded")]
     sin = os.path.join(d, "fault_scenarios.json")
     with open(sin, "w") as f:
@@ -125,12 +132,14 @@ def fault_http(prop="C20"):
             "events": len(evs), "tlc_states": res["tlc_states"], "known_findings_seen": [k["key"] for k in known]}, len(viol)
 
 
-def check(prop="C07"):
+def check(prop="C07", only=None):
     t0 = time.time()
     build_harness()
     d = rundir("%s_%s" % (prop, tier()))
     sd = spec_copy(d)
     scns = scenarios()
+    if only:
+        scns = [s for s in scns if s["name"] in only]
     sin = os.path.join(d, "crash_scenarios.json")
     with open(sin, "w") as f:
         json.dump(scns, f)
@@ -183,7 +192,8 @@ def check(prop="C07"):
         "rule": "one execution per (victim operation, fault kind in {crash, storage/LN error}, call index k); the call sequence of each "
                 "victim is measured by a dry run; distinct_nontrivial counts the fault executions (dry runs excluded)",
         "samples": [{"scenario": scns[0]["name"], "victim": scns[0]["victim"], "calls": dry[0]["calls"]},
-                    {"scenario": scns[4]["name"], "victim": scns[4]["victim"], "calls": dry[4]["calls"] if len(dry) > 4 else []}],
+                    {"scenario": scns[min(4, len(scns) - 1)]["name"], "victim": scns[min(4, len(scns) - 1)]["victim"],
+                     "calls": dry[min(4, len(dry) - 1)]["calls"]}],
         "exhaustive": True, "executions_by_mode": modes,
         "victims": {r["scenario"]: r["calls"] for r in dry},
         "states": res["tlc_states"], "transitions": res["tlc_generated"], "traces_validated_against_impl": len(runs),
